@@ -83,6 +83,18 @@ func (x *Exec) doCall(f *Frame, st *State, instr ssa.CallInstruction, cc *ssa.Ca
 			x.assumed[info.Name] = true
 			return single(st, th(x, f, st, info))
 		}
+		// a keeper of another module: it cannot write this module's store (separate store keys, A-MODSEP);
+		// it may move coins, so the bank ledger is havocked, and its result is unconstrained
+		if strings.HasSuffix(iname, "Keeper") {
+			x.assumed["foreign keeper (A-MODSEP: result unconstrained, bank ledger havocked): "+info.Name] = true
+			st.world = st.world.clone()
+			st.world.havoc(x, "bal")
+			st.world.havoc(x, "supply")
+			if info.ResTyp == nil {
+				return single(st, nil)
+			}
+			return single(st, x.freshVal(st, info.ResTyp, "r_"+cc.Method.Name()))
+		}
 		return x.unknownCall(f, st, info)
 	}
 	for _, a := range cc.Args {
@@ -361,8 +373,19 @@ func (x *Exec) appendBuiltin(f *Frame, st *State, info *CallInfo) Val {
 	rt := SortOf(info.ResTyp)
 	// key construction: append(prefix, bytes...) handled by families elsewhere; here generic
 	if rt == SBytes {
+		if bb, ok := base.(*BufVal); ok {
+			if ab := x.asBytes(st, add); ab != nil {
+				return &BufVal{ID: x.freshName("buf"), Len: x.freshTerm("buflen", SInt), Parts: append(append([]bufPart(nil), bb.Parts...), bufPart{Val: ab})}
+			}
+		}
 		bt, _ := base.(*Term)
 		at, _ := add.(*Term)
+		if bt != nil && bt == BytesNil {
+			// appending to an empty byte slice yields the appended bytes
+			if ab := x.asBytes(st, add); ab != nil {
+				return ab
+			}
+		}
 		if kv, ok := base.(*KeyVal); ok {
 			return kv.appendBytes(x, add)
 		}
